@@ -164,3 +164,37 @@ func H_C12_truncated(shape int, cut int) {
 	vAssert("returns", true)
 	vReach("error", err != nil)
 }
+
+// duplicates that differ only in letter case ("value"/"VALUE", "unit"/"Unit") next to the other member, in every
+// order: rejected with the duplicate sentinel, whatever the rules say about unknown keys (three members: the quick
+// tier of H_C12_object stops at two, where a duplicate always also lacks the other member)
+//
+//verif:harness C12 quick which=0..1 perm=0..5
+func H_C12_caseDuplicates(which int, perm int) {
+	vMergeOutcomes()
+	r := Rule(vU8("rule") & 15)
+	d1, d2 := vU8("d1"), vU8("d2")
+	vAssume(d1 >= '1' && d1 <= '9' && d2 >= '0' && d2 <= '9')
+	num := json.Number(string([]byte{d1, d2}))
+	kinds := [3]int{0, 1, 2} // value, VALUE, unit
+	if which == 1 {
+		kinds = [3]int{0, 2, 3} // value, unit, Unit
+	}
+	perms := [6][3]int{{0, 1, 2}, {0, 2, 1}, {1, 0, 2}, {1, 2, 0}, {2, 0, 1}, {2, 1, 0}}
+	var toks []json.Token
+	for i := 0; i < 3; i++ {
+		toks, _ = addMember(toks, kinds[perms[perm][i]], i, num, "kB")
+	}
+	toks = append(toks, json.Delim('}'))
+	save := MaxObjectKeys
+	MaxObjectKeys = 0
+	got, err := unmarshalJSONObject(&vDecoder{toks: toks}, r)
+	MaxObjectKeys = save
+	vAssert("case-insensitive-duplicate-rejected", err != nil && got == 0)
+	if which == 0 {
+		vAssert("duplicated-value-sentinel", errorsIs(err, ErrDuplicatedValueKey))
+	} else {
+		vAssert("duplicated-unit-sentinel", errorsIs(err, ErrDuplicatedUnitKey))
+	}
+	vReach("reached", true)
+}
